@@ -5,7 +5,7 @@
    of the same geometric operands give the same result (explicit corollaries at the end).
    Statements only; proofs in proofs/Spec_*.v over the definitions generated from /repo on this run. *)
 From Coq Require Import Reals.
-From VP Require Import Lib RLib Spec Compute Tables Spec_planar Spec_spatial1 Spec_spatial2 Spec_lorentz Spec_lorentz2 Spec_lorentz3.
+From VP Require Import Lib RLib Spec Compute Tables Spec_planar Spec_spatial1 Spec_spatial2 Spec_lorentz Spec_lorentz2 Spec_lorentz3 Spec_lorentz4.
 From VP Require ObjModel ObjNames NbModel NbApi NbChecks.
 Import ObjNames List.ListNotations.
 Open Scope R_scope.
@@ -147,6 +147,16 @@ Proof.
   exact (conj (add_spec4 s1 l1 t1 s2 l2 t2 a1 b1 c1 d1 a2 b2 c2 d2 Ht H1 H2)
               (subtract_spec4 s1 l1 t1 s2 l2 t2 a1 b1 c1 d1 a2 b2 c2 d2 Ht H1 H2)).
 Qed.
+
+(* add with BOTH operands tau-stored: the proper time of the sum is recomputed from t1 + t2 and |p1 + p2|^2; holds for the 31 of the
+   36 spatial pairings that return the sum in Cartesian coordinates (all but the five same-system polar ones: search only) *)
+Theorem C01_lorentz_add_tau_tau_partial : forall s1 l1 s2 l2 a1 b1 c1 d1 a2 b2 c2 d2,
+  (s1, l1) <> (s2, l2) \/ (s1 = XY /\ l1 = LZ) ->
+  rep4 s1 l1 TTau a1 b1 c1 d1 -> rep4 s2 l2 TTau a2 b2 c2 d2 ->
+  den4 (T_lorentz_add s1 l1 TTau s2 l2 TTau a1 b1 c1 d1 a2 b2 c2 d2)
+  = Some (sx s1 a1 b1 + sx s2 a2 b2, sy s1 a1 b1 + sy s2 a2 b2, sz s1 l1 a1 b1 c1 + sz s2 l2 a2 b2 c2,
+          st s1 l1 TTau a1 b1 c1 d1 + st s2 l2 TTau a2 b2 c2 d2).
+Proof. exact add_spec4_tau_tau. Qed.
 
 (* kinematic quantities of a representable 4-vector, all 12 signatures: functions of the Cartesian denotation only *)
 Theorem C01_lorentz_kinematics : forall s l t a b c d, rep4 s l t a b c d ->
